@@ -2,8 +2,22 @@ package render
 
 import (
 	"errors"
+	"fmt"
 	"io"
+	"sync/atomic"
 )
+
+// lateUse holds the first use of a writer after the render it was handed to had returned
+// (in this process): a render may only ever touch its own writer.
+var lateUse atomic.Pointer[string]
+
+// takeLateUse reports and clears it.
+func takeLateUse() string {
+	if s := lateUse.Swap(nil); s != nil {
+		return *s
+	}
+	return ""
+}
 
 var errWriter = errors.New("sim: injected writer failure")
 
@@ -29,9 +43,23 @@ type core struct {
 	// limit, when set with park, is the output size beyond which the render is considered
 	// runaway: the task then parks under kind "runaway" and is never released.
 	limit int
+	// done is set when the render this writer was handed to has returned.
+	done bool
+}
+
+func (c *core) late(op string, n int) bool {
+	if !c.done {
+		return false
+	}
+	s := fmt.Sprintf("%s(%d bytes) on a writer whose render had already returned (it holds %d bytes from that render)", op, n, len(c.got))
+	lateUse.CompareAndSwap(nil, &s)
+	return true
 }
 
 func (c *core) Write(p []byte) (int, error) {
+	if c.late("Write", len(p)) {
+		return len(p), nil
+	}
 	if c.park != nil {
 		if c.limit > 0 && len(c.got) > c.limit {
 			c.park("runaway", len(c.got))
@@ -71,6 +99,9 @@ type plainW struct{ *core }
 type flushW struct{ *core }
 
 func (f flushW) Flush() {
+	if f.late("Flush", 0) {
+		return
+	}
 	if f.park != nil {
 		f.park("flush", 0)
 	}
